@@ -233,6 +233,12 @@ def compiled_check(chk, rng, jobs, tier):
             bad2 = [e for e in elems if e != "IDX_ELEM_GRAIN" and t2["IDX_ELEM_H"] != 0 and
                     abs(t2[e] / t2["IDX_ELEM_H"] - want[e]) > 1e-6 * max(abs(want[e]), mag2[e] / abs(t2["IDX_ELEM_H"]),
                                                                          abs(want[e]) * mag2["IDX_ELEM_H"] / abs(t2["IDX_ELEM_H"]))]
+            lost = t2["IDX_ELEM_H"] == 0 and t["IDX_ELEM_H"] != 0       # every hydrogen-bearing abundance set to zero
+            if lost:
+                chk.violation({"kind": "compiled-second-renorm", "backend": b, "all_zero": True},
+                              "a second Naunet::Renorm with the same object (solver settings changed through Reset in between) leaves no "
+                              "hydrogen nuclei at all: the stored reference is gone", input=inp, after=dict(zip(aliases, new2)))
+                break
             if flag2 != 0 or not all(math.isfinite(x) for x in new2) or bad2:
                 chk.violation({"kind": "compiled-second-renorm", "backend": b},
                               f"a second Naunet::Renorm with the same object and reference does not restore the ratios "
